@@ -32,7 +32,7 @@ def isFinOf (id : Nat) : Ev → Bool
 /-- When a finaliser or a node's delFunc runs (and the cache was not force-closed), nothing references the
 node. -/
 theorem fin_refs_zero {g sh Q log sh' i push evs} (h : InvP g sh (i :: Q) log)
-    (he : exec sh i = some (sh', push, evs)) (hf : sh.forced = false) (hg : g = true ∨ sh.closed = false)
+    (he : exec sh i = some (sh', push, evs)) (hf : sh.forced = false) (hg : Eff g sh = true ∨ sh.closed = false)
     {e : Ev} {id : Nat} (hev : e ∈ evs) (hfin : isFinOf id e = true) : refsP sh (i :: Q) id = 0 := by
   cases i
   case delz k =>
@@ -56,7 +56,7 @@ theorem fin_refs_zero {g sh Q log sh' i push evs} (h : InvP g sh (i :: Q) log)
       cases hc : sh.closed with
       | true => rfl
       | false => have := (h.op hc).1 _ List.mem_cons_self; simp [closedOnly] at this
-    have hgt : g = true := by
+    have hgt : Eff g sh = true := by
       rcases hg with hg | hg
       · exact hg
       · rw [hclosed] at hg; cases hg
